@@ -25,6 +25,8 @@ PRELUDE = """
 use unimock::*;
 
 pub struct NoDbg(pub u8);
+#[derive(Debug)]
+pub struct Wrap<'a>(pub &'a u32);
 """
 
 # kind -> (declared type, setup, argument expression, Debug rendering)
@@ -49,6 +51,10 @@ def kind(k, p):
         return ("&NoDbg", f"let nd{p} = NoDbg({p});", f"&nd{p}", "?")
     if k == "optref":
         return ("Option<&u32>", f"let o{p}: u32 = {400 + p};", f"Some(&o{p})", f"Some({400 + p})")
+    if k == "mutlt":
+        # a `&mut` parameter whose pointee has a lifetime: unimock cannot hand it to matchers and
+        # shows the marker `Impossible` in its place - it still occupies its position in the call
+        return ("&mut Wrap<'_>", f"let wv{p}: u32 = {700 + p}; let mut w{p} = Wrap(&wv{p});", f"&mut w{p}", "Impossible")
     if k == "gen_dbg":
         return ("GD", "", f"{500 + p}u16", f"{500 + p}")
     if k == "gen_nodbg":
@@ -432,6 +438,7 @@ def instances(tier):
     # (A)
     lists = [[]] + [[k] for k in KINDS]
     lists += [list(t) for t in itertools.product(KINDS, repeat=2)] if not quick else [[a, b] for a, b in zip(KINDS, KINDS[1:] + KINDS[:1])]
+    lists += [["mutlt"], ["u8", "mutlt"], ["mutlt", "str"], ["u8", "mutlt", "str"]]
     lists += [["u8", "mut", "str"], ["nodbg", "refref", "slice", "string"], ["gen_nodbg", "ref", "gen_dbg"], ["optref", "refnodbg", "u8", "mut"]]
     errs_full = ERRORS
     for l in lists:
